@@ -407,7 +407,7 @@ func (f *Fn) canon(e ast.Expr, depth int, busy map[types.Object]bool) string {
 			if o.Pkg() != nil && o.Pkg() != f.Pkg.Types {
 				return o.Pkg().Name() + "." + o.Name()
 			}
-			return o.Name()
+			return pinnedBareName(o)
 		case *types.PkgName:
 			return o.Imported().Name()
 		case *types.TypeName:
@@ -421,6 +421,9 @@ func (f *Fn) canon(e ast.Expr, depth int, busy map[types.Object]bool) string {
 			if pn, ok := info.Uses[id].(*types.PkgName); ok {
 				return pn.Imported().Name() + "." + x.Sel.Name
 			}
+		}
+		if fo, ok := info.Uses[x.Sel].(*types.Func); ok {
+			return f.canon(x.X, depth, busy) + "." + pinnedBareName(fo) // a renamed helper prints under its pinned name
 		}
 		return f.canon(x.X, depth, busy) + "." + x.Sel.Name
 	case *ast.StarExpr:
